@@ -89,7 +89,7 @@ CHECKS = {
         tech="exhaustive environment-configuration enumeration (file present/cached/both/missing) x include graphs x argument forms with a reference inliner"),
     "C02": dict(
         cat="model_checking", ref="4/C02",
-        text="The only nondeterminism reachable from the interpreter is Go map iteration order, so the harness takes ownership of it: a go build -overlay of runtime/map.go (generated by tools/rtseam.sh, anchors verified) turns every map-iteration start into an environment choice point. For 19 map-consuming templates x maps of 2,3,4,8,12 entries x insertion orders (all n! for n<=4, shifts and reversal beyond), a deviation-bounded depth-first search runs the real render under every choice vector with <=1 (quick) / <=3 (thorough) non-default iteration starts; every execution must produce the canonical output. Independently every template of a ~400-template pool goes through 6 entry points, 3 re-renders of one parsed template, a fresh engine and rebuilt bindings, two fresh processes must produce identical digests of the whole pool, and (thorough) the command-line tool is run as a sub-process.",
+        text="The only nondeterminism reachable from the interpreter is Go map iteration order, so the harness takes ownership of it: a go build -overlay of runtime/map.go (generated by tools/rtseam.sh, anchors verified) turns every map-iteration start into an environment choice point. For 20 map-consuming templates (one over map entries that reach each other: a ring of struct pointers, entries sharing a node) x maps of 2..27 entries x insertion orders (all n! for n<=4, shifts and reversal beyond), a deviation-bounded depth-first search runs the real render under every choice vector with <=1 (quick) / <=3 (thorough) non-default iteration starts; every execution must produce the canonical output. Independently every template of a ~400-template pool goes through 6 entry points, 3 re-renders of one parsed template, a fresh engine and rebuilt bindings, two fresh processes must produce identical digests of the whole pool, and (thorough) the command-line tool is run as a sub-process. Memory addresses: 15 values holding pointers in printing positions are each built twice (both alive, so no address coincides) and rendered through 25 printing positions; the two results must be the same bytes (one known finding: the %#v fallback of the inspect filter).",
         note="Environment automaton = rotations of bucket slot order x hash-seed-pinned bucket choice; maps above 13 entries not enumerated. Without the seam (other Go version) the check exits 0 with exhaustive:false.",
         tech="deviation-bounded DFS over environment answers (Go map-iteration start) on the real code via a runtime overlay, plus entry-point/process differential"),
     "C18": dict(
